@@ -698,6 +698,19 @@ _patch_string_models()
 
 
 # ============================================================================ Bytes / BytesMut
+class DataBytesIter(Model):
+    """Iterator over the bytes of a Data payload, one representative byte per segment: 0 for the 'zero' class, 1 otherwise
+    (assumption: a non-zero content class contains at least one non-zero byte, the 'zero' class none)."""
+    ty = 'Iter<u8>'
+
+    def __init__(self, data):
+        self.data = data
+
+    def as_pyiter(self, ex):
+        vals = [0 if c == 'zero' else 1 for (c, o, l) in self.data.segs]
+        return M.PyIter(iter([Ref([v], 0) for v in vals]), len(vals))
+
+
 class BufV(Model):
     """BytesMut: a mutable byte buffer as a list of segments."""
     ty = 'BytesMut'
